@@ -15,8 +15,13 @@ def make_cfg(rng, profile):
     napps = profile.get("apps", rng.choice([1, 1, 2]))
     cfg["apps"] = [dict(id=4, auth=True, acct=False)]
     if napps >= 2:
-        cfg["apps"].append(dict(id=rng.choice([3, 16777238]), auth=False, acct=True) if rng.random() < 0.5
-                           else dict(id=16777238, auth=True, acct=False))
+        r2 = rng.random()
+        if r2 < 0.3:
+            cfg["apps"].append(dict(id=4, auth=True, acct=False))      # the SAME id, told apart by the peers configured for it
+        elif r2 < 0.65:
+            cfg["apps"].append(dict(id=rng.choice([3, 16777238]), auth=False, acct=True))
+        else:
+            cfg["apps"].append(dict(id=16777238, auth=True, acct=False))
     if napps == 0:
         cfg["apps"] = []
     npeers = profile.get("peers", rng.choice([1, 2, 3]))
@@ -64,6 +69,7 @@ class Gen:
         self.after_stop = 0
         self.stop_immediate = False
         self.n_req = 0
+        self.zero_used = set()
 
     def ids(self):
         self.next_hbh += 1
@@ -132,6 +138,9 @@ class Gen:
             if st == 4:
                 add("request", lambda cid=cid, c=c: self.ev_request(cid, c))
                 add("stray_answer", lambda cid=cid, c=c: self.ev_stray_answer(cid, c))
+                add("dwr", lambda cid=cid, c=c: self.ev_base(cid, c, "dwr"))
+                add("dwa", lambda cid=cid, c=c: self.ev_base(cid, c, "dwa"))
+                add("dpa", lambda cid=cid, c=c: self.ev_base(cid, c, "dpa"))
             add("close", lambda cid=cid: dict(ev="close", cid=cid))
             add("readerr", lambda cid=cid: dict(ev="readerr", cid=cid, hard=rng.random() < 0.6))
             add("stall", lambda cid=cid: dict(ev="stall", cid=cid, on=rng.random() < 0.5))
@@ -162,7 +171,9 @@ class Gen:
     # ---- events ------------------------------------------------------------------------
     def ev_accept(self):
         self.n_accept += 1
-        return dict(ev="accept", hbh0=self.rng.randrange(1, 2 ** 32 - 10))
+        # now and then a hop-by-hop generator that is about to wrap
+        h0 = self.rng.choice([0xfffffffe, 0xffffffff, 0xfffffffd]) if self.rng.random() < 0.12 else self.rng.randrange(1, 2 ** 32 - 10)
+        return dict(ev="accept", hbh0=h0)
 
     def peer_host_choice(self, snap):
         rng = self.rng
@@ -228,8 +239,12 @@ class Gen:
 
     def ev_request(self, cid, c):
         h, e = self.ids()
-        if self.rng.random() < 0.25:
+        r = self.rng.random()
+        if r < 0.25:
             h = 42        # equal hop-by-hop ids on different connections
+        elif r < 0.32 and (cid, 0) not in self.zero_used:
+            h = 0         # boundary identifier: an answer must carry it unchanged
+            self.zero_used.add((cid, 0))
         fr = NS.build_message(dict(kind="req", hbh=h, e2e=e, host=self.origin_for(c)))
         self.pending.setdefault(cid, []).append((h, e, fr))
         return dict(ev="recv", cid=cid, frames=[fr])
@@ -237,7 +252,8 @@ class Gen:
     def ev_bad_request(self, cid, c):
         rng = self.rng
         h, e = self.ids()
-        k = rng.choice(["no_session", "no_type", "unknown_app", "foreign_realm", "other_realm", "unknown_cmd", "no_drealm", "no_host", "two_missing"])
+        k = rng.choice(["no_session", "no_type", "unknown_app", "foreign_realm", "other_realm", "unknown_cmd", "no_drealm", "no_host", "two_missing",
+                        "handler_raises"])
         spec = dict(kind="req", hbh=h, e2e=e, host=self.origin_for(c))
         if k == "no_session":
             spec["no_session"] = True
@@ -258,12 +274,16 @@ class Gen:
             spec["drealm"] = None
         elif k == "no_host":
             spec["host"] = None
+        elif k == "handler_raises":
+            spec["raises"] = True
         fr = NS.build_message(spec)
         self.pending.setdefault(cid, []).append((h, e, fr))
         return dict(ev="recv", cid=cid, frames=[fr])
 
     def ev_base(self, cid, c, kind):
         h, e = self.ids()
+        if self.rng.random() < 0.1:
+            h = 0
         return dict(ev="recv", cid=cid, frames=[NS.build_message(dict(kind=kind, hbh=h, e2e=e, host=self.origin_for(c)))])
 
     def ev_stray_answer(self, cid, c):
